@@ -437,9 +437,11 @@ def run_case(case):
 # the model side
 # ----------------------------------------------------------------------------------------------
 
-def model_lines(cid, case, res):
+def model_lines(cid, case, res, stale=False):
     """Lines for `drv afifo`.  `stopreq` ends the source like an exception (the model has one
-    failing-source ending; which exception class arrives is checked by the monitor)."""
+    failing-source ending; which exception class arrives is checked by the monitor).
+    `stale=True`: lines for `drv afifostale` (Legacy model of the pinned code, where the
+    `UnboundLocalError` of defect F1 travels on the source-failure path)."""
     src = 'clean' if case['src'] == 'clean' else 'exc'
     pfl = ','.join(map(str, case['pf'])) if case['pre'] else ''
     lines = [f'case {cid} n={case["n"]} cap={case["cap"]} rexc={int(case["rexc"])} '
@@ -455,7 +457,12 @@ def model_lines(cid, case, res):
         return lines
     end = res['end']
     if end[0] == 'raise':
-        raised = 'src' if end[1] in ('src', 'stopreq') else f'item:{end[2]}'
+        if end[1] in ('src', 'stopreq') or (stale and end[1] == 'other:UnboundLocalError'):
+            raised = 'src'
+        elif end[1].startswith('other'):
+            raised = 'foreign'          # no model state has this: the main model never raises a foreign exception
+        else:
+            raised = f'item:{end[2]}'
     else:
         raised = 'none'
     lines.append(f'end out={len(res["out"])} raised={raised} close={int(end[0] == "closed")} final={final}')
